@@ -6,7 +6,7 @@ sys.path.insert(0, ROOT); sys.path.insert(0, os.path.join(ROOT, "checks"))
 
 HOOK_COMMITS = ["09f541b"]   # no hooks needed so far: static functions are reached by #include of the real .c file   # filled when hook commits exist in /repo
 NOT_APPLICABLE = {} # pid -> reason, for properties with no check module
-READY = ["C01", "C02", "C03", "C04", "C06", "C07", "C09", "C10", "C11", "C12", "C13", "C14", "C15", "C16", "C17", "C18", "C19", "C20"]   # check modules that are finished (others may be under construction)
+READY = ["C01", "C02", "C03", "C04", "C06", "C07", "C08", "C09", "C10", "C11", "C12", "C13", "C14", "C15", "C16", "C17", "C18", "C19", "C20"]   # check modules that are finished (others may be under construction)
 
 props = [json.loads(l) for l in open(os.path.join(ROOT, "properties.jsonl"))]
 checks = []
@@ -32,7 +32,7 @@ for p in props:
     checks.append(c)
 man = {
     "version": 1,
-    "setup_cmd": "python3 verif.py list > /dev/null",
+    "setup_cmd": "python3 verif.py selfcheck",
     "hooks": {
         "guard": "BEARSSL_ESP8266_VERIF",
         "enable": "harness and units are compiled by goto-cc / gcc with -DBEARSSL_ESP8266_VERIF (verif.py config_defs); the only hook (src/rsa/rsa_i15_priv.c) additionally needs -DBR_VERIF_RSA_I15_ALIGN=0|1, set per query",
